@@ -70,17 +70,15 @@ func charts(thorough bool) []*hx.ChartSpec {
 	var sels []chartSel
 	as := [][2]int{{0, 0}, {1, 0}, {2, 0}, {3, 0}, {1, 1}, {1, 2}}
 	if thorough {
-		// full product of the slots
+		// full product of ConfigMap a (7 variant/policy combinations) x Widget w (3), each also with Service s = v1,
+		// plus the Service and second-ConfigMap variants of the quick set
 		as = append(as, [2]int{2, 1})
 		for _, a := range as {
 			for _, w := range []int{0, 1, 2} {
-				for _, s := range []int{0, 1, 2} {
-					for _, b := range []int{0, 1} {
-						sels = append(sels, chartSel{A: a[0], AP: a[1], W: w, S: s, B: b})
-					}
-				}
+				sels = append(sels, chartSel{A: a[0], AP: a[1], W: w}, chartSel{A: a[0], AP: a[1], W: w, S: 1})
 			}
 		}
+		sels = append(sels, chartSel{S: 2}, chartSel{A: 2, W: 2, S: 2}, chartSel{A: 1, S: 2}, chartSel{A: 1, B: 1}, chartSel{A: 2, W: 1, B: 1})
 	} else {
 		// every variant of every slot, with the other slots at absent and at v1
 		for _, a := range as {
@@ -152,9 +150,6 @@ func config(tier string) *opspace.Config {
 			}
 			// environment steps on the live objects of the release (at most one between two operations)
 			maxEnv := 1
-			if thorough {
-				maxEnv = 2
-			}
 			if !lastEnv && envs < maxEnv && nOps < maxOps {
 				docs, _ := hx.ParseManifest(last.Manifest)
 				for _, d := range docs {
